@@ -136,7 +136,7 @@ macro "crunch" : tactic => `(tactic| (try simp) <;> (try ((repeat' split) <;> si
 @[simp] theorem processIoWrite_U (D : Desc) (s : St) (i : SvcIn) : KeepsU s (processIoWrite D s i).1 := by
   simp [processIoWrite]; crunch
 @[simp] theorem printCmdList_U (D : Desc) (s : St) : KeepsU s (printCmdList D s) := by
-  simp [printCmdList]; crunch
+  simp [printCmdList, printCmdForm]; crunch
 
 /-- **The command machine never touches the unsolicited machine's control fields.** -/
 theorem commandService_keepsU (D : Desc) (s : St) (i : SvcIn) : KeepsU s (commandService D s i).1 := by
